@@ -101,6 +101,8 @@ class HyReprModel(Model):
 
     def inv(self, seen, quoting):
         x = z3.Int("x!inv")
+        if z3.is_expr(quoting) and not z3.is_bool(quoting):
+            quoting = quoting != 0          # the flag's truth value, should the code keep it as a number
         return z3.ForAll([x], z3.Implies(z3.And(z3.IsMember(x, seen), self.eligible(x)), quoting))
 
     def call(self, ex, st, f, args, kwargs, node):
@@ -154,7 +156,7 @@ class HyReprModel(Model):
         return NotImplemented
 
 
-def c28(chk, prefix="hy_repr"):
+def c28(chk, prefix="hy_repr", concrete=None):
     tree, fn = _src("hy/core/hy_repr.hy", "hy_repr")
     chk.fn("hy/core/hy_repr.hy::hy-repr (as compiled by hy_compile)")
     m = HyReprModel()
@@ -173,10 +175,10 @@ def c28(chk, prefix="hy_repr"):
         kinds[k] = kinds.get(k, 0) + 1
         tag = f"on {k}"
         ex.oblige(f"_seen restored ({tag})", p.st, p.st.globals["_seen"] == seen0)
-        ex.oblige(f"_quoting restored ({tag})", p.st, p.st.globals["_quoting"] == quoting0)
+        ex.oblige(f"_quoting restored ({tag})", p.st, E.same_value(p.st.globals["_quoting"], quoting0))
     ex.oblige("vacuity: normal, early-return and exceptional exits are all reached", st,
               z3.BoolVal(kinds.get("return", 0) >= 2 and kinds.get("exception", 0) >= 1 and m.printer_calls >= 1))
-    n = discharge(chk, prefix, ex)
+    n = discharge(chk, prefix, ex, extra_models=concrete)
     chk.extra["hy_repr_paths"] = len(paths)
     # canary: without the invariant as precondition the early return leaks _quoting
     m2 = HyReprModel()
@@ -186,7 +188,7 @@ def c28(chk, prefix="hy_repr"):
     st2.pc += [m2.eligible(m2.idof(obj)) == z3.And(m2.is_model(obj), z3.Not(m2.is_kw(obj)))]
     refuted = False
     for p in run_fn(ex2, st2, fn, {"obj": z3.Const("obj", m2.Val)}):
-        if E.prove(p.st.pc, p.st.globals["_quoting"] == quoting0)[0] == "refuted":
+        if E.prove(p.st.pc, E.same_value(p.st.globals["_quoting"], quoting0))[0] == "refuted":
             refuted = True
     chk.canary("C28: dropping the invariant from `requires` makes the early-return clause fail", refuted)
     return n
